@@ -382,6 +382,16 @@ def shards(tier):
     return [{"kind": "crash", "scenarios": g, "_label": {"kind": "crash", "group": i, "scenarios": len(g)}} for i, g in enumerate(groups) if g]
 
 
+def OPTIMIZED_SHARDS(tier):
+    """a sample of the crash scenarios (every 9th in quick, every 3rd in thorough) is repeated with all processes started with -O"""
+    flat = [sc for sh in shards(tier) for sc in sh["scenarios"]]
+    flat.sort(key=lambda sc: json.dumps(sc, sort_keys=True, default=repr))
+    pick = flat[::9 if tier == "quick" else 3]
+    n = 8
+    groups = [pick[i::n] for i in range(n)]
+    return [{"kind": "crash", "scenarios": g, "_label": {"kind": "crash", "group": "O%d" % i, "scenarios": len(g)}} for i, g in enumerate(groups) if g]
+
+
 def run_shard(spec, seed, tier):
     res = ShardResult()
     first = {}
